@@ -31,18 +31,27 @@ Want(p) == Props = "ALL" \/ \E k \in 1..(Len(Props) - 2) : SubSeq(Props, k, k + 
 \* evaluate the selected predicates on a finished scenario; print failures
 Judge(c, hist, S) ==
   LET cfg == c.cfg
-  IN \E res \in {[C01 |-> IF Want("C01") THEN P!Failing(P!C01_Clauses(cfg, S)) ELSE {},
+      \* a run of the same node object nested into one of the scenario's exec callbacks (own store, own values) left
+      \* the scenario's events unchanged: prep value, attempts and results are data of a run, not of the node object
+      Reent == IF "reent" \in DOMAIN c /\ ~c.reent THEN {"nestedRunInvisible"} ELSE {}
+  IN \E res \in {[C01 |-> IF Want("C01") THEN P!Failing(P!C01_Clauses(cfg, S)) \cup Reent ELSE {},
               C02 |-> IF Want("C02") THEN P!Failing(P!C02_Clauses(cfg, S)) \cup (IF c.flowrun THEN {} ELSE {"flowRunConvenience"}) ELSE {},
               C03 |-> IF Want("C03") THEN P!Failing(P!C03_Clauses(cfg, S)) \cup (IF c.flowrun THEN {} ELSE {"flowRunConvenience"}) ELSE {},
               C04 |-> IF Want("C04") THEN P!Failing(P!C04_Clauses(cfg, S)) \cup (IF c.flowrun THEN {} ELSE {"flowRunConvenience"}) ELSE {},
               C05 |-> IF Want("C05") THEN P!Failing(P!C05_Clauses(cfg, S)) \cup (IF c.flowrun THEN {} ELSE {"flowRunConvenience"}) ELSE {},
               C10 |-> IF Want("C10") THEN P!Failing(P!C10_Clauses(cfg, S)) \cup (IF c.flowrun THEN {} ELSE {"flowRunConvenience"}) ELSE {},
               C11 |-> IF Want("C11") THEN P!Failing(P!C11E_Clauses(cfg, S)) \cup (IF c.flowrun THEN {} ELSE {"flowRunConvenience"}) ELSE {},
-              C17 |-> IF Want("C17") THEN P!Failing(P!C17_Clauses(cfg, S)) ELSE {},
+              C17 |-> IF Want("C17") THEN P!Failing(P!C17_Clauses(cfg, S)) \cup Reent ELSE {},
               C18 |-> IF Want("C18") THEN P!Failing(P!C18_Clauses(cfg, S)) ELSE {}]} :
      \* scenarios with a retry budget below one are outside every property: they are only trace-validated
-     LET bad == IF c.fam = "enginezero" THEN {} ELSE {p \in DOMAIN res : res[p] # {}} IN
-     /\ \A p \in bad : PrintT(<<"FAIL", c.scn, p, res[p]>>)
+     \* scenarios with panicking callbacks: whether a panic propagates or is turned into an error is the library's
+     \* choice; what a run that does return must satisfy is not - an action or an error, never neither, never the empty
+     \* action with a nil error
+     LET bad == IF c.fam = "enginezero" THEN {}
+                ELSE IF c.fam = "enginepanic"
+                     THEN {p \in {"C01", "C18"} : res[p] \cap {"retXor", "nonEmpty"} # {}}
+                     ELSE {p \in DOMAIN res : res[p] # {}} IN
+     /\ \A p \in bad : PrintT(<<"FAIL", c.scn, p, IF c.fam = "enginepanic" THEN res[p] \cap {"retXor", "nonEmpty"} ELSE res[p]>>)
      /\ (c.hasexp /\ c.exp # hist) => PrintT(<<"DRIFT", c.scn>>)
 
 HitKeys == {"retried", "fallback", "failedRun", "cancelled", "multiNode", "nested", "emptyAct", "eres", "funcNode"}
